@@ -317,10 +317,12 @@ Outcome encoder_nest_impl(int ckind, size_t depth, const Opt& opt, bool root_obj
         jsoncons::ser_context ctx;
         size_t opened = 0; std::vector<char> kinds;
         for (size_t i = 0; i < depth && !ec; ++i) {
-            bool obj = ckind == 1 || (ckind == 2 && (i & 1)) || (root_object && i == 0);
+            bool obj = ckind == 1 || ckind == 4 || (ckind == 2 && (i & 1)) || (root_object && i == 0);
+            bool nolength = ckind >= 3;
             if (!kinds.empty() && kinds.back() == '{') enc.key("k", ctx, ec);
             if (ec) break;
-            if (obj) enc.begin_object(1, jsoncons::semantic_tag::none, ctx, ec); else enc.begin_array(1, jsoncons::semantic_tag::none, ctx, ec);
+            if (obj) { if (nolength) enc.begin_object(jsoncons::semantic_tag::none, ctx, ec); else enc.begin_object(1, jsoncons::semantic_tag::none, ctx, ec); }
+            else { if (nolength) enc.begin_array(jsoncons::semantic_tag::none, ctx, ec); else enc.begin_array(1, jsoncons::semantic_tag::none, ctx, ec); }
             if (!ec) { kinds.push_back(obj ? '{' : '['); ++opened; }
         }
         if (!ec) { if (!kinds.empty() && kinds.back() == '{') enc.key("k", ctx, ec); if (!ec) enc.uint64_value(1, jsoncons::semantic_tag::none, ctx, ec); }
